@@ -521,15 +521,50 @@ def check_serialized(ctx):
                         return True
                     return False
                 body = [b for b in g.node.body if not inert(b)]
+                # straight-line locals bound once are read through
+                local = {}
+                while len(body) > 1 and isinstance(
+                        body[0], ast.Assign) and len(
+                            body[0].targets) == 1 and isinstance(
+                                body[0].targets[0], ast.Name) and \
+                        body[0].targets[0].id not in local:
+                    local[body[0].targets[0].id] = body[0].value
+                    body = body[1:]
                 ret = body[0].value if len(body) == 1 and isinstance(
                     body[0], ast.Return) else None
+
+                def thru(x):
+                    return local[x.id] if isinstance(
+                        x, ast.Name) and x.id in local else x
+                ret = thru(ret)
                 # ... possibly re-spelled character by character (escapes
                 # for what is not printable ASCII) on the way out
+                respell_bad = None
                 if isinstance(ret, ast.Call) and len(ret.args) == 1 and \
                         not ret.keywords:
                     h = prog.callee_of(g, ret)
-                    if h is not None and prog.is_respelling(h):
-                        ret = ret.args[0]
+                    if h is not None:
+                        from ..respell import respelling, json_alphabet
+                        r = respelling(prog, h, json_alphabet(
+                            thru(ret.args[0])))
+                        if r is None:
+                            raise AnalysisError(
+                                'the rule value is written through %s, '
+                                'which is not one of the per-character '
+                                're-spelling forms read (respell.py): '
+                                'whether the file still holds the value is '
+                                'not decided' % h.qual)
+                        if r[0] == 'bad':
+                            respell_bad = (h, r[1])
+                        ret = thru(ret.args[0])
+                if respell_bad is not None:
+                    ok = False
+                    detail = 'the value is re-spelled by %s before it is ' \
+                        'written, and %s' % (respell_bad[0].name,
+                                             respell_bad[1])
+                    ctx.ob('C18.SERIALIZED', ok, ctx.where(f.module, x),
+                           f.qual, 'rule value ' + U(val)[:60], detail)
+                    continue
                 if not (isinstance(ret, ast.Call)
                         and (prog.resolve(g.module, ret.func)
                              or '').endswith(SERIALIZERS)
@@ -901,11 +936,26 @@ def check_merge(ctx):
            'file_rules`: a default can shadow or duplicate an override')
     # rendered uncommented: include_help False
     sec = prog.func(GEN + '._sort_and_format_by_section')
-    ok_h = False
+    # ... through the section formatter or the rule formatter itself
+    renderers = {sec.qual: sec}
+    for g in prog.module(GEN).functions.values():
+        if 'include_help' in g.params and 'comment_rule' in g.params:
+            renderers[g.qual] = g
+    seen_r = []
     for c in ast.walk(f.node):
-        if isinstance(c, ast.Call) and prog.callee_of(f, c) is sec:
-            ih = kwarg(c, 'include_help', 2)
-            ok_h = ih is not None and is_const(ih, False)
+        g = prog.callee_of(f, c) if isinstance(c, ast.Call) else None
+        if g is not None and g.qual in renderers:
+            ih = kwarg(c, 'include_help', g.params.index('include_help'))
+            cr = kwarg(c, 'comment_rule', g.params.index('comment_rule')) \
+                if 'comment_rule' in g.params else None
+            seen_r.append((ih is not None and is_const(ih, False))
+                          or (cr is not None and is_const(cr, False)))
+    if not seen_r:
+        raise AnalysisError(
+            'the effective-policy generator calls neither the section '
+            'formatter nor the rule formatter: how its rule lines are '
+            'rendered is not read')
+    ok_h = all(seen_r)
     ctx.ob('C18.MERGE', ok_h, W, f.qual, 'rendering',
            'effective rules are written as plain (uncommented) rule lines'
            if ok_h else 'the effective policy is rendered with help text, '
